@@ -397,3 +397,47 @@ chunk* small_free_memory_list::find_chunk_impl(unsigned char* node) noexcept
     FOONATHAN_MEMORY_UNREACHABLE("must be in one half");
     return nullptr;
 }
+
+#ifdef FOONATHAN_MEMORY_VERIF
+const char* small_free_memory_list::verif_walk(std::size_t& reachable) const noexcept
+{
+    reachable          = 0u;
+    auto        base   = const_cast<chunk_base*>(&base_);
+    const char* error  = nullptr;
+    bool        alloc_seen = alloc_chunk_ == base, dealloc_seen = dealloc_chunk_ == base;
+    std::size_t chunks = 0u;
+    for (auto cur = base->next; cur != base; cur = cur->next)
+    {
+        if (!cur)
+            return "chunk list runs into a null link";
+        if (++chunks > 1000000u)
+            return "chunk list does not terminate";
+        if (cur->next->prev != cur)
+            error = "chunk list links are inconsistent";
+        if (cur->next != base && !less(cur, cur->next))
+            error = "chunks are not in ascending address order";
+        if (cur == alloc_chunk_)
+            alloc_seen = true;
+        if (cur == dealloc_chunk_)
+            dealloc_seen = true;
+        auto        c     = static_cast<chunk*>(cur);
+        std::size_t count = 0u;
+        auto        index = c->first_free;
+        while (count < c->capacity)
+        {
+            if (index >= c->no_nodes)
+                return "free index of a chunk is out of range";
+            index = *c->node_memory(index, node_size_);
+            ++count;
+        }
+        if (c->capacity > c->no_nodes)
+            return "chunk capacity exceeds its number of nodes";
+        reachable += count;
+    }
+    if (reachable != capacity_)
+        return "free nodes in the chunks do not add up to capacity()";
+    if (!alloc_seen || !dealloc_seen)
+        return "cached allocation/deallocation chunk is not part of the list";
+    return error;
+}
+#endif
